@@ -148,5 +148,29 @@ func genC01(repo string) (string, error) {
 		return "", err
 	}
 	o.sb.WriteString("Definition src_createTsoForwardStream : string := (* server/grpc_service.go *)\n  " + goast.Q(src) + ".\n")
+	// the client library: how a response (count n, highest value) becomes the n values handed to the n waiting callers
+	cl, err := goast.Load(repo, "client/client.go")
+	if err != nil {
+		return "", err
+	}
+	for _, fn := range []string{"addLogical"} {
+		src, err = funcBodySrc(cl, "", fn)
+		if err != nil {
+			return "", err
+		}
+		o.sb.WriteString("Definition src_client_" + fn + " : string := (* client/client.go *)\n  " + goast.Q(src) + ".\n")
+	}
+	if err := o.skeleton(cl, "client", "processTSORequests", "skel_client_processTSORequests", goast.SkelOpt{
+		Calls:    set("Send", "Recv", "GetCount"),
+		ArgCalls: set("finishTSORequest", "compareAndSwapTS", "addLogical"),
+		Assigns:  set("count", "req", "firstLogical", "physical", "logical", "suffixBits", "requests"),
+		Conds:    true, Branches: true}); err != nil {
+		return "", err
+	}
+	src, err = funcBodySrc(cl, "client", "finishTSORequest")
+	if err != nil {
+		return "", err
+	}
+	o.sb.WriteString("Definition src_client_finishTSORequest : string := (* client/client.go *)\n  " + goast.Q(src) + ".\n")
 	return o.sb.String(), nil
 }
